@@ -154,6 +154,9 @@ def variants(case):
     for ri in idx:
         yield "mult", idx, dict(rows=idx, mults={ri: 2})
     yield "mult", idx, dict(rows=idx, mults={0: 3, 3: 2})
+    if case["layout"] == "sparse":  # a crowd next to the observed particles: more particles than there are nodes in a forcing field
+        yield "mult", idx, dict(rows=idx, mults={2: 400})
+        yield "mult", idx, dict(rows=idx, mults={1: 150, 3: 200})
     for k in SHIFTS:
         yield "shift", idx, dict(rows=idx, shift=k)
     yield "repeat", idx, dict(rows=idx)
